@@ -6,7 +6,8 @@
   request : {"stations":[str], "width":n,
              "ops":[ {"op":"submit","t":n,"lastTs":n|null,"sched":[[station,[bits…]],…]}
                    | {"op":"grow","t":n,"lastTs":n|null}
-                   | {"op":"period","t":n,"lastTs":n|null,"sched":null|[[station,[bits…]],…]} ]}
+                   | {"op":"period","t":n,"lastTs":n|null,"sched":null|[[station,[bits…]],…],"by":"run"|"step"}
+                   | {"op":"last_applied","t":iteration,"lastTs":null,"active":[[session,station,arrival],…]} ]}
   optional "brief":true (only the last step in full); or {"batch":[request,…]} ↦ {"batch":[answer,…]}
   answer  : {"steps":[{"err":null|"KeyError"|"InvalidSchedule"|"IndexError","width":n,
                        "rows":[[bits…]], "col":null|[bits…], "spec":[[bits…]]}]}
@@ -62,7 +63,10 @@ def stepOp (stations : List String) (s : St) (o : Json) : Except String (St × J
     let subs' := match sched with
       | some sc => s.subs ++ [⟨t, lastTs, sc⟩]
       | none => s.subs
-    match periodStep stations s.m ⟨t, lastTs, sched⟩ with
+    -- "by":"step" = a loop trip of step(): growth target stepWidth instead of runWidth
+    let byStep := (getStr o "by").toOption == some "step"
+    let target := if byStep then stepWidth t lastTs else runWidth t lastTs
+    match periodStepW stations s.m ⟨t, lastTs, sched⟩ target with
     | .ok (m', col) =>
       let s' : St := ⟨m', subs'⟩
       pure (s', jStep stations s' none (some col))
@@ -71,6 +75,17 @@ def stepOp (stations : List String) (s : St) (o : Json) : Except String (St × J
       pure (s', jStep stations s' (some (errName e)) none)
     | .error .indexError =>
       pure (s, jStep stations s (some "IndexError") none)
+  else if op == "last_applied" then
+    -- {"op":"last_applied","t":iteration,"lastTs":null,"active":[[session,station,arrival],…]}
+    let act ← (← getArr o "active").mapM fun e => do
+      match ← asArr e with
+      | [a, b, c] => pure ((← a.getStr?), (← b.getStr?), (← c.getNat?))
+      | _ => throw "active entry must be [session, station, arrival]"
+    let r := lastApplied stations s.m t act
+    let j := match r with
+      | some vals => Json.arr (vals.map fun v => Json.arr #[jS v.1, jF v.2]).toArray
+      | none => Json.null
+    pure (s, Json.mkObj [("err", if r.isSome then Json.null else jS "KeyError"), ("last", j)])
   else throw s!"unknown op {op}"
 
 def handleOne (j : Json) : Except String Json := do
